@@ -92,6 +92,10 @@ WITNESS_TESTS = {
     "file": "witness/c02_pub_frame_by_frame_under_hwm.rs", "props": ["C02"], "pairs_fn": ["PubSocket::send"],
     "what": "PUB (SNDHWM 4, SNDTIMEO 0) publishes 3000 three-frame messages frame by frame to a slow SUB: whatever arrives is a whole message, never frames missing or glued",
   },
+  "c02_router_frame_by_frame_under_hwm": {
+    "file": "witness/c02_router_frame_by_frame_under_hwm.rs", "props": ["C02"], "pairs_fn": ["router_payload_frame"],
+    "what": "KNOWN FINDING witness: ROUTER (SNDHWM 4, SNDTIMEO 0) replies frame by frame to a slow DEALER: a refused payload frame leaves a partial message that the next message is glued to",
+  },
   "c02_inproc_reader_too_many_frames": {
     "file": "witness/c02_inproc_reader_too_many_frames.rs", "props": ["C02", "C07"], "pairs_fn": ["inproc_reader_body"],
     "what": "PUSH sends 300 MORE frames frame by frame over inproc to a PULL: no panic inside rzmq (panic hook), the connection is closed like over tcp",
@@ -196,7 +200,7 @@ ENGINE_TRUSTED = COMMON_TRUSTED + [
 ]
 
 PROPS["C02"] = {
-  "units": ["framebatch", "engine", "anon", "dealersend", "flags", "reqrep", "routerfrag", "inprocrd"],
+  "units": ["framebatch", "engine", "anon", "dealersend", "flags", "reqrep", "routerfrag", "inprocrd", "routersend"],
   "kani_quick": [], "kani_thorough": [],
   "claim": "Receiver side, proved unbounded on the verbatim code: ZmtpEngine::process_data delivers only complete messages (MORE on all but the last frame), and delivered frames + the message in progress equal, in order, "
            "the data frames the framer returned (nothing dropped, duplicated, reordered or merged across calls); a message of more than 255 frames closes the connection with PeerError instead of panicking and nothing truncated is delivered. "
@@ -211,6 +215,8 @@ PROPS["C02"] = {
            "the detach of a pipe resets ROUTER's frame-by-frame send in progress only if that send is addressed to the detached connection (unit routerfrag). "
            "Frame-by-frame sending (unit flags: PUSH send + try_send_sync, PUB send): a frame with MORE is held back and nothing reaches the router path / the fan-out; the last frame hands on the held-back frames plus itself as ONE batch "
            "(so a PUSH message goes to one peer, and a PUB message is dropped for a slow subscriber as a whole or not at all); a message beyond 255 frames is refused, never sent in part. "
+           "ROUTER's frame-by-frame send (unit routersend, the payload branch as a region): a payload frame goes to the connection the identity frame selected, the last frame closes the send in progress, an accepted MORE frame keeps it open "
+           "(one known finding: a REFUSED MORE frame closes it and leaves a partial message on the connection). "
            "inproc (unit inprocrd, the body of the direct-inproc reader task as a region, three nested loops): frames forwarded ++ frames waiting ++ accumulator == frames taken off the channel at every point, however the frames of a message are spread "
            "over wake-ups of the task; only batches ending in a frame without MORE are forwarded; the reassembly never overruns the 255-frame capacity (a longer message closes the connection).",
   "level_note": "Unit anon uses the sequential lock model for the frame cache (one task receives at a time) and an abstract ReadyPipeQueue (its pop order is a ghost sequence; cancel safety of pop() assumed); queued batches are assumed to be whole messages "
@@ -350,7 +356,7 @@ PROPS["C05"] = {
 }
 
 PROPS["C11"] = {
-  "units": ["framing", "routerrecv", "routermap", "flags", "routerfrag"],
+  "units": ["framing", "routerrecv", "routermap", "flags", "routerfrag", "routersend"],
   "kani_quick": [], "kani_thorough": [],
   "claim": "Envelope handling only, proved for every message shape (any number of frames up to the container limit, empty frames anywhere): ROUTER's automatic delimiter is inserted right after the identity and removed from exactly that slot, "
            "DEALER's is prepended and stripped, the payload frames after it are unchanged frame for frame (decode after encode restores the payload); REP's extract_routing_prefix splits at the first empty frame, loses and reorders nothing, "
